@@ -116,7 +116,20 @@ def b5(e: Engine, rep: Report):
                             t.id == x.args[0].id for t in a.targets)
                         for a in walk_own(rfn))))
                 for x in walk_own(rfn))
-            if not joined:
+            # ... or written one after the other: `for part in parts(...):
+            # buffer.write(part)`
+            written = any(
+                isinstance(x, ast.For) and x.iter is call and
+                isinstance(x.target, ast.Name) and len(x.body) == 1 and
+                not x.orelse and isinstance(x.body[0], ast.Expr) and
+                isinstance(x.body[0].value, ast.Call) and
+                isinstance(x.body[0].value.func, ast.Attribute) and
+                x.body[0].value.func.attr == 'write' and
+                len(x.body[0].value.args) == 1 and
+                isinstance(x.body[0].value.args[0], ast.Name) and
+                x.body[0].value.args[0].id == x.target.id
+                for x in walk_own(rfn))
+            if not joined and not written:
                 rep.error('cannot see how _build_message consumes the parts '
                           'generated by %s' % where)
                 return
@@ -367,7 +380,8 @@ def b2(e: Engine, rep: Report):
 
 def b3(e: Engine, rep: Report):
     ctx = e.method_ctx(QUEUE, '_split_by_reply')
-    g = e.build(ctx, raises=lambda b, n, r: set())
+    g = e.build(ctx, raises=lambda b, n, r: set(),
+                inline=e.inline_same_self(), max_depth=3)
     fx = e.facts(g)
     where = ctx.func.qname
     rep.functions.add(where)
@@ -401,12 +415,20 @@ def b3(e: Engine, rep: Report):
     tnames = {x.id for x in ast.walk(lp.ast.target)
               if isinstance(x, ast.Name)}
 
+    PLACE = ('append', 'copy', 'add', 'insert')
+
     def mentions_rcpt(call):
         idx = set()
         for a in call.args:
             for x in ast.walk(a):
                 if isinstance(x, ast.Subscript):
                     idx |= {id(y) for y in ast.walk(x.slice)}
+                # `groups.append((reply, envelope.copy([rcpt])))`: the
+                # recipient is placed by the inner call
+                if isinstance(x, ast.Call) and \
+                        isinstance(x.func, ast.Attribute) and \
+                        x.func.attr in PLACE:
+                    idx |= {id(y) for y in ast.walk(x)}
         return any(isinstance(x, ast.Name) and x.id in tnames and
                    id(x) not in idx
                    for a in call.args for x in ast.walk(a))
@@ -436,7 +458,10 @@ def b3(e: Engine, rep: Report):
     news = [n for n in g.nodes if count(n) and
             not any(in_loop(n, i) for i in inner)]
     rep.evaluations += 1
-    if not news or not inner:
+    if news and not inner and _find_or_create(e, rep, g, fx, where, lp, news,
+                                              in_loop):
+        news = []
+    elif not news or not inner:
         rep.bad('B3', where, 'groups are keyed by reply equality',
                 '_split_by_reply no longer searches the existing groups '
                 'before creating one', loc=ctx.func.loc())
@@ -579,6 +604,65 @@ def b3(e: Engine, rep: Report):
                       'whole-message failure')
     if nsites < 3:
         rep.error('anchor vanished: _perm_fail call sites (%d < 3)' % nsites)
+
+
+def _find_or_create(e, rep, g, fx, where, lp, places, in_loop):
+    """The grouping spelled `found = next((G for R, G in groups if reply ==
+    R), None)` (possibly in a helper): next() with a None default over a
+    filter on reply equality is None exactly when no group compared equal.
+    Every placement of the recipient is then either under `found is None`
+    (a new group) or under `found is not None` and into `found`."""
+    finds = {}
+    for s in g.of_kind('stmt'):
+        if not (isinstance(s.ast, ast.Assign) and in_loop(s, lp) and
+                len(s.ast.targets) == 1 and
+                isinstance(s.ast.targets[0], ast.Name)):
+            continue
+        vals = common.values_of(g, s.ast.value, s.frame)
+        ok = bool(vals)
+        for v, fr in vals:
+            if not (isinstance(v, ast.Call) and
+                    isinstance(v.func, ast.Name) and v.func.id == 'next' and
+                    len(v.args) == 2 and
+                    isinstance(v.args[1], ast.Constant) and
+                    v.args[1].value is None and
+                    isinstance(v.args[0], ast.GeneratorExp) and
+                    len(v.args[0].generators) == 1):
+                ok = False
+                continue
+            gen = v.args[0].generators[0]
+            eq = [c for c in gen.ifs if isinstance(c, ast.Compare) and
+                  len(c.ops) == 1 and isinstance(c.ops[0], ast.Eq) and
+                  'repl' in ast.unparse(c)]
+            if len(gen.ifs) != 1 or not eq:
+                ok = False
+        if ok:
+            finds[path_of(s.ast.targets[0], s.frame)] = s
+    if not finds:
+        return False
+    for n in places:
+        rep.evaluations += 1
+        st = fx.at(n) or frozenset()
+        verdict = None
+        for fp in finds:
+            if holds(st, (True, '%s is None' % fp)):
+                verdict = 'new'
+            elif holds(st, (False, '%s is None' % fp)):
+                rcv = n.ast.func.value if isinstance(
+                    n.ast.func, ast.Attribute) else None
+                base = rcv
+                while isinstance(base, ast.Attribute):
+                    base = base.value
+                verdict = 'join' if base is not None and \
+                    path_of(base, n.frame) == fp else 'stray'
+        rep.check(verdict in ('new', 'join'), 'B3', where,
+                  'new group only after the search found no equal reply',
+                  'a new group (one more bounce) can be created although '
+                  'an existing group has an equal reply, or without '
+                  'searching', loc=n.loc(),
+                  reason='placement is decided by `next(<groups with an '
+                  'equal reply>, None) is None`')
+    return True
 
 
 def _reply_index(c, name, bnames, seen=()):
